@@ -27,6 +27,9 @@ def modelled : List String := [
   "goldenposeidon.init",
   "goldenposeidon.mix",
   "goldenposeidon.zero",
+  "tree.<layout>@ffg",
+  "tree.<layout>@goldenposeidon",
+  "tree.<layout>@root",
   "ffg.<decls>@arith.go",
   "ffg.<decls>@asm.go",
   "ffg.<decls>@asm_noadx.go",
@@ -41,6 +44,6 @@ theorem source_pinned : modelled.all (same I3.Gen.fingerprints) = true := by dec
 theorem function_set_pinned : (["ffg.", "goldenposeidon."] : List String).all (sameKeys I3.Gen.fingerprints) = true := by
   decide +kernel
 
-theorem modelled_nonempty : 25 = modelled.length := by decide
+theorem modelled_nonempty : 28 = modelled.length := by decide
 
 end I3.Props.C10
